@@ -113,24 +113,49 @@ def run_contracts(repo_src, verif, sidecars, select, tier, seed, jobs, ledger=No
     idxs = [i for i, c in enumerate(e.u.contracts) if select(c)]
     if not idxs:
         return e, [], load_errors
-    if jobs > 1 and len(idxs) > 1:
+    budget_s = 900 if tier == 'quick' else 5400       # wall-clock budget of the whole contract phase of one check
+
+    def abandoned(i, why):
+        c = e.u.contracts[i]
+        return {'contract': c['name'], 'sidecar': c['module'], 'target': c['target'], 'props': c['props'], 'status': 'undecided',
+                'obligations': [], 'notes': [why], 'bounded': c['meta'].get('bounded')}
+
+    def run_batch(batch, procs, deadline):
+        """Every contract in a worker process; a worker that overruns the deadline or dies (z3 has crashed on pathological terms)
+        is abandoned and its contract reported undecided - the check always terminates."""
         ctx = mp.get_context('fork')
-        with ctx.Pool(min(jobs, len(idxs))) as pool:
-            results = pool.map(_work, idxs, chunksize=1)
-    else:
-        results = [_work(i) for i in idxs]
+        pool = ctx.Pool(max(1, min(procs, len(batch))))
+        out = {}
+        try:
+            asyncs = [(i, pool.apply_async(_work, (i,))) for i in batch]
+            for i, a in asyncs:
+                try:
+                    out[i] = a.get(timeout=max(1.0, deadline - time.time()))
+                except mp.TimeoutError:
+                    out[i] = abandoned(i, 'wall-clock budget of the check exceeded, or the worker process died (solver crash)')
+                except Exception as ex:      # noqa
+                    out[i] = abandoned(i, f'worker failed: {type(ex).__name__}: {ex}')
+        finally:
+            pool.terminate()
+        return out
+    t_start = time.time()
+    first = run_batch(idxs, jobs, t_start + budget_s * 0.6)
+    results = [first[i] for i in idxs]
     # Solver budgets are wall-clock: with all cores busy an obligation may come back `unknown` (or a contract may crash on a
-    # path that a timed-out feasibility query failed to prune).  Such contracts are re-run once, alone, with a tripled budget;
+    # path that a timed-out feasibility query failed to prune).  Such contracts are re-run once with a tripled budget;
     # verdicts `failed` (counter-model found) are never re-run.
     redo = [k for k, r in enumerate(results) if r['status'] in ('undecided', 'crash', 'contract-error') or (r['status'] == 'out-of-subset' and 'not evaluable on this path' in ' '.join(r.get('notes', []))) or _unstable(r, ledger)]
-    if redo:
+    if redo and any(r['status'] == 'failed' for r in results):
+        redo = [k for k in redo if results[k]['status'] in ('crash', 'contract-error')]      # a refuted obligation settles the verdict; no point in spending the triple budget on the undecided rest
+    if redo and time.time() < t_start + budget_s * 0.8:
         _CFG['timeout_ms'] *= 3
         from .values import CTX
         CTX.branch_timeout_ms *= 3
+        second = run_batch([idxs[k] for k in redo], min(jobs, 4), t_start + budget_s)
         for k in redo:
-            first = results[k]
-            results[k] = _work(idxs[k])
-            results[k]['rerun_after'] = first['status']
+            before = results[k]
+            results[k] = second[idxs[k]]
+            results[k]['rerun_after'] = before['status']
         CTX.branch_timeout_ms //= 3
         _CFG['timeout_ms'] //= 3
     return e, results, load_errors
